@@ -135,6 +135,10 @@ def main(tier):
             res.counters['nontrivial'] += nt if (rname == 'ascending' or tier == 'quick') else 0
         if res.violations:
             break
+    if not res.violations:
+        nb, tb = big_phase(res)
+        total_states += nb
+        total_trans += tb
     res.counters['tables'] = total_states
     res.counters['calls'] = total_trans
     res.counters['traces_validated'] = validated
@@ -144,6 +148,54 @@ def main(tier):
     res.extra['states_with_hidden_residue'] = int(res.counters.get('states_with_hidden_residue', 0))
     res.outcomes = outcomes
     return common.finish(res, tier, LEVEL, RULE, ASSUMPTIONS, t0)
+
+
+def big_phase(res):
+    """Depth-2 exploration from big constructor-built states (12 x 9 names) with long
+    argument lists: thresholds on the number of names need longer axes than the BFS
+    universes have.  Every base state x every big operation x every follow-up."""
+    import collections
+    import pickle
+    from .. import bigdefs
+    universe = bigdefs.UNIVERSE
+    names = sorted(set(universe[0]) | set(universe[1]))
+    states = transitions = 0
+    for rname, ranks in (('ascending', {n: i for i, n in enumerate(names)}),
+                         ('descending', {n: len(names) - i for i, n in enumerate(names)})):
+        env.HashLabel.ranks = dict(ranks)
+        ctr = collections.Counter()
+        for sname, s in bigdefs.base_states():
+            blob0 = pickle.dumps(explore.make_real(s))
+            states += 1
+            for op in bigdefs.big_ops(s):
+                real = pickle.loads(blob0)
+                V, m1 = explore.step(real, s, op, universe, ctr)
+                hist = []
+                if not V and m1 is not None:
+                    blob1 = pickle.dumps(real)
+                    states += 1
+                    for op2 in bigdefs.followups(m1):
+                        real2 = pickle.loads(blob1)
+                        V, _ = explore.step(real2, m1, op2, universe, ctr)
+                        if V:
+                            hist, op = [explore.enc_op(op)], op2
+                            break
+                if V:
+                    v = V[0]
+                    case = {'universe': [list(universe[0]), list(universe[1])], 'ranks': ranks,
+                            'start': list(tm.triple(s)), 'start_name': sname, 'history': hist,
+                            'op': explore.enc_op(op)}
+                    res.violations.append(common.violation(ID, v['clause'], case, v['expected'],
+                                                           v['observed']))
+                    break
+            if res.violations:
+                break
+        transitions += ctr['transitions']
+        res.counters.update(ctr)
+        if res.violations:
+            break
+    res.counters['big_phase_transitions'] = transitions
+    return states, transitions
 
 
 def make_repro(case):
@@ -173,5 +225,17 @@ def make_repro(case):
 def replay(v):
     c = v['case']
     universe = (tuple(c['universe'][0]), tuple(c['universe'][1]))
+    if 'start' in c:        # big phase: history from a constructor-built state
+        import collections
+        common.ensure_repo_import()
+        env.HashLabel.ranks = dict(c['ranks'])
+        model = tm.from_triple(*c['start'])
+        real = explore.make_real(model)
+        ctr = collections.Counter()
+        for h in c['history']:
+            _, m2 = explore.step(real, model, explore.dec_op(h), universe, ctr)
+            model = m2 if m2 is not None else model
+        V, _ = explore.step(real, model, explore.dec_op(c['op']), universe, ctr)
+        return [common.violation(ID, x['clause'], c, x['expected'], x['observed']) for x in V]
     V = explore.replay_history(c['history'], c['op'], universe, c['ranks'])
     return [common.violation(ID, x['clause'], c, x['expected'], x['observed']) for x in V]
